@@ -101,6 +101,13 @@ def run(prog, rep, tier='quick'):
                 else:
                     rep.violation('singular-values', f.qname, 'S', 'the returned singular values are not those svd produced from the '
                                   'forward-backward data matrix (shape %s)' % (A.shape,), where)
+            elif not sv and [e for e in itp.events if e[0] == 'eigh'] and any(
+                    isinstance(l_, str) and l_.startswith('EIG:') for l_ in taint_of(v.items[1])):
+                eg = [e for e in itp.events if e[0] == 'eigh'][0]
+                rep.violation('singular-values', f.qname, 'S', 'the returned values are computed from an eigen-decomposition (%s), not '
+                              'by svd of the forward-backward data matrix: the eigenvalues of the Gram matrix are the squared singular '
+                              'values only in exact arithmetic -- for noiseless data the null ones come out as +-round-off, so their '
+                              'roots are NaN or ~1e-8 of the largest instead of negligible' % normalise(eg[1])[:60], loc(f.mod, eg[1]))
             else:
                 rep.undecided('singular-values', f.qname, 'S', 'svd call not found', where)
     # accumulation (structure of the noise-subspace loop)
